@@ -113,28 +113,18 @@ def check(col: Collector, tier: str):
     order_ok = True
     why = ""
     for p in normal:
-        i_exe = idx(p, is_call("get_executor_obj"))
         i_md = idx(p, is_call("add_extended_md"))
         i_tr = idx(p, is_call("apply_ast_transformations"))
         i_wr = idx(p, is_call("write_cpp_files"))
         i_run = idx(p, lambda e: e.kind == "call" and src(e.node.func) == "docker.run")
         i_ext = idx(p, is_call("_extract_result_TTree"))
-        seq = [i_exe, i_md, i_tr, i_wr, i_run, i_ext]
+        seq = [i_md, i_tr, i_wr, i_run, i_ext]
         if -1 in seq or seq != sorted(seq):
             order_ok = False
-            why = f"order of (get_executor_obj, add_extended_md, apply_ast_transformations, write_cpp_files, docker.run, _extract_result_TTree) is {seq}"
+            why = f"order of (add_extended_md, apply_ast_transformations, write_cpp_files, docker.run, _extract_result_TTree) is {seq}"
             break
     col.add("C17.R2", ex.short, "event-order", order_ok,
-            "executor -> register docker metadata -> transform -> write package -> docker.run -> extract result on every normal path; " + why, ex.loc)
-    # the executor is obtained fresh and not cached on the dataset
-    exe_assign = [n for n in walk_no_nested(ex.node) if isinstance(n, ast.Assign) and isinstance(n.value, ast.Call)
-                  and src(n.value) == "self.get_executor_obj()"]
-    cached = [n for n in ast.walk(ld.node) if isinstance(n, ast.Assign) and any(
-        isinstance(t, ast.Attribute) and isinstance(t.value, ast.Name) and t.value.id == "self" for t in n.targets)
-        and any(isinstance(c, ast.Call) and call_name(c) == "get_executor_obj" for c in ast.walk(n.value))]
-    col.add("C17.R2", ex.short, "fresh-executor-per-execution", len(exe_assign) == 1 and isinstance(exe_assign[0].targets[0], ast.Name) and not cached,
-            "each execution must take a new executor from self.get_executor_obj() into a local (a cached executor carries the previous "
-            "query's docker metadata and blocks)", ex.loc)
+            "register docker metadata -> transform -> write package -> docker.run -> extract result on every normal path; " + why, ex.loc)
     # write_cpp_files(apply_ast_transformations(a), run_dir)
     wr = [c for c in ast.walk(ex.node) if isinstance(c, ast.Call) and call_name(c) == "write_cpp_files"]
     ok = len(wr) == 1 and isinstance(wr[0].args[0], ast.Call) and call_name(wr[0].args[0]) == "apply_ast_transformations" \
